@@ -982,6 +982,47 @@ def reference_check(ctx, rng, desc, orders):
             break
 
 
+def identifier_cases(ctx, rng):
+    """scan(identifier=...), multicast, inside what the known finding leaves: every source sends fewer
+    datagrams than there are queries and nothing is repeated, so the early exit cannot trigger.  Not modelled;
+    direct oracle only: the same configurations for every arrival order."""
+    for i in range(ctx.scale(3, 10)):
+        r = rng.fork("ident", i)
+        devs = []
+        for k in range(2 + i % 2):
+            d = gen_device(r, k, allow_noid=False, mixed=(k == 0), nsvc=r.randint(2, 3), hostile=False)
+            d["sleeping"] = False
+            d["services"] = d["services"][:3]
+            devs.append(d)
+        dgrams, _ = layout(r, "m", devs, None)
+        desc = {"mode": "m", "protoset": None, "hosts": [], "enc": r.choice(["r", "c"]), "dgrams": dgrams,
+                "absent": [], "consistent": True}
+        c = Case(desc)
+        if c.nq <= 3:
+            continue
+        base = list(range(len(dgrams)))
+        plain = run_real("m", None, [], [(dgrams[j]["src"], c.wire[j]) for j in base])
+        ids = sorted({x for cfg in plain["configs"] for x in cfg.all_identifiers if x})
+        if not ids:
+            continue
+        ident = r.choice(ids)
+        desc["identifier"] = ident
+        orders = orders_for(r, len(base), 4, ctx.scale(10, 30), 0)
+        ref = None
+        for o in orders:
+            res = run_real("m", None, [], [(dgrams[j]["src"], c.wire[j]) for j in o], identifier=ident)
+            snap = oracle_snapshot(res)
+            ctx.note("identifier-scan")
+            ctx.case(["identifier", dgrams, ident, o], bool(res["configs"]) and o != base)
+            if ref is None:
+                ref = snap
+            elif snap != ref:
+                ctx.fail("m:identifier-scan-order-changes-result", {"desc": desc, "order": o, "reference_order": orders[0]},
+                         repr(snap)[:600], repr(ref)[:600],
+                         "scan(identifier=...) below the early-exit threshold: snapshot differs between arrival orders")
+                break
+
+
 def gen_case_inconsistent(rng, mode):
     """Correspondence only: contradictory records (exercise first-wins / last-wins / merge order)."""
     desc = gen_case_m(rng, rng.randint(1, 2), 4) if mode == "m" else gen_case_u(rng, rng.randint(1, 2))
@@ -1232,7 +1273,9 @@ def run(ctx, only=None):
         r = rng.fork("undecodable", i)
         desc = gen_case_undecodable(r, "mmu"[i % 3], i)
         n = len(desc["dgrams"])
-        evaluate(ctx, desc, orders_for(r, n, full, samples * 2, 2), "undecodable-datagram")
+        evaluate(ctx, desc, orders_for(r, n, min(full, 5), samples, 1), "undecodable-datagram")
+    # 2f. identifier-restricted scans below the early-exit threshold (oracle only)
+    identifier_cases(ctx, rng)
     # 3. contradictory data: correspondence only
     for i in range(ctx.scale(10, 40)):
         r = rng.fork("x", i)
